@@ -178,7 +178,7 @@ def shards(tier):
 
 
 def run_shard(spec, ctx):
-    run_given(DEC.cases(thorough=ctx.thorough), body, ctx, ctx.pick(120, 440))
+    run_given(DEC.cases(thorough=ctx.thorough), body, ctx, ctx.pick(120, 260))
 
 
 def replay(data, col):
